@@ -99,6 +99,9 @@ pub fn main(a: &Args) {
             let t = inputs::long_tail_markdown(&corpus, &mut rng);
             inputs.push((t, if i % 6 == 5 { "plain".to_string() } else { "markdown".to_string() }));
         }
+        for (i, t) in inputs::currency_texts().into_iter().enumerate() {
+            inputs.push((t, if i % 5 == 0 { "markdown".to_string() } else { "plain".to_string() }));
+        }
         for i in 0..a.num("soups", 1500) {
             let t = inputs::token_soup(&mut rng);
             inputs.push((t, ["plain", "markdown", "plain"][i as usize % 3].to_string()));
